@@ -825,7 +825,8 @@ class CLMidB(Component):
 
         @s.func
         def f_probe():                    # helper: calls that commute with everything else
-            s.foo.peek.rdy()
+            if s.foo.peek.rdy():
+                s.foo.peek()
             s.tags.append(s.foo.tag())
 
         @update_once
@@ -872,7 +873,8 @@ class ClTop(Component):
         # the stateless tag() port of a child and of a list element, and the rdy() of an interface
         @s.func
         def f_tag():
-            s.q.peek.rdy()
+            if s.q.peek.rdy():
+                s.q.peek()                # (no side effect; the value is not used)
             s.tags.append((s.q.tag(), s.qs[1].tag()))
 
         @update_once
